@@ -12,3 +12,5 @@ open Nanite.C19Legacy
 #print axioms c19_legacy_str_verbatim
 #print axioms c19_legacy_vary
 #print axioms c19_legacy_str_roundtrip
+#print axioms c19_legacy_file
+#print axioms c19_legacy_file_rejects
